@@ -2,6 +2,8 @@
 // that carry a slice and live in package-level storage.
 package fx
 
+import "bytes"
+
 type tok struct {
 	kind int
 	text []byte
@@ -38,3 +40,8 @@ func cloned(s string) tok {
 }
 
 func measured(s string) int { return len(ready[s].text) }
+
+var terminator = []byte("*/")
+
+// searched only reads the shared slice
+func searched(b []byte) bool { return bytes.HasSuffix(b, terminator) }
